@@ -555,6 +555,7 @@ def gen_text(rnd, which='enhanced_grammar', root=None, maxdepth=7):
             size[k] = min(size[k], msize(rules[k]))
     idents = ['C', 'O', 'H', 'N', 'c', 'n', 'Pt', 'Cl', 'X', 'M', 'c1', 'c2', 'c3', 'o1', 'a', 'r1', 'AtomLabel', 'Xe', 'Zz', 'h_1']
     out = []
+    declared = []
 
     def go(p, d):
         if isinstance(p, str):
@@ -581,7 +582,17 @@ def gen_text(rnd, which='enhanced_grammar', root=None, maxdepth=7):
         elif isinstance(p, P.Number):
             out.append(str(rnd.randint(0, 30)))
         elif isinstance(p, P.String):
-            out.append(rnd.choice(idents))
+            # labels: a name that follows 'labeled' declares one; where the grammar refers to a label (after 'bond to', 'ringbond', '(', ',', ...) a declared
+            # one is used most of the time, so that generated texts get past the label look-ups of the readers
+            prev = out[-1] if out else ''
+            if prev == 'labeled':
+                nm = rnd.choice(idents)
+                declared.append(nm)
+                out.append(nm)
+            elif declared and prev in ('bond to', 'ringbond', '(', ',', 'to', 'and', 'for double bond between', 'stereo double bond', '=>') and rnd.random() < 0.85:
+                out.append(rnd.choice(declared))
+            else:
+                out.append(rnd.choice(idents))
         elif isinstance(p, P.EOS):
             pass
         else:
